@@ -179,6 +179,9 @@ func verdict(res *Result, kf []KnownFinding, id, tier string, dump, writeEv bool
 			fmt.Sprintf("%d type error(s) outside the repository are tolerated (quic-go's deliberate build failure on this toolchain): %s", len(res.DepErrors), strings.Join(res.DepErrors, "; ")),
 			"guard tables, reference policy table and accepted idioms frozen in the checker are correct for the pinned commit (each entry carries its reason in the source)",
 		}
+		if len(res.Renames) > 0 {
+			assume = append(assume, "unexported identifiers renamed with respect to the reference table were read under their reference names (alpha-equivalence: nothing observes unexported names at run time)")
+		}
 		ev := map[string]interface{}{
 			"property_id": id,
 			"tier":        tier,
